@@ -379,6 +379,7 @@ struct VecAdapter {
     t->elemNoexceptMove = std::is_nothrow_move_constructible<T>::value;
     t->claimsTR = amc::is_trivially_relocatable<V>::value;
     t->sizeSigned = std::is_signed<S>::value;
+    t->sizeTypeId = (unsigned)sizeof(S) * 2 + (std::is_signed<S>::value ? 1 : 0);
     t->allocDomain = AllocInfo<A>::domain;
     t->hasRealloc = AllocInfo<A>::hasRealloc && t->elemTR;
 #ifdef AMC_NONSTD_FEATURES
